@@ -199,7 +199,7 @@ def _same(env, a, b):
         from symnp.core import SC
         for x, y in zip(a._a.ravel(), b._a.ravel()):
             x, y = SC(x), SC(y)
-            if not (z3.simplify(x.re.z - y.re.z, som=True).eq(z3.RealVal(0)) and z3.simplify(x.im.z - y.im.z, som=True).eq(z3.RealVal(0))):
+            if not (z3.simplify(x.re.z - y.re.z, som=True, sort_sums=True).eq(z3.RealVal(0)) and z3.simplify(x.im.z - y.im.z, som=True, sort_sums=True).eq(z3.RealVal(0))):
                 return False
         return True
     return bool(np.allclose(np.asarray(a), np.asarray(b), rtol=1e-12, atol=1e-14))
